@@ -74,6 +74,32 @@ def pack_ok(ie: IntervalEval, pack, plen) -> tuple[bool, str]:
     return False, f"payload from {v!r}"
 
 
+def array_refuses_non_octets(repo: Repo) -> bool:
+    """DPTArray.__init__ raises ConversionError when an int element is outside 0..255 (read from its body)."""
+    ini = repo.func("xknx.dpt.payload", "DPTArray.__init__")
+    for n in walk_local(ini.node):
+        if isinstance(n, ast.If) and any(isinstance(x, ast.Raise) and "ConversionError" in ast.unparse(x) for x in n.body):
+            t = ast.unparse(n.test)
+            if "any(" in t and ("not 0 <= octet <= 255" in t or "not 0 <= octet <= 0xFF" in t.replace("0xff", "0xFF")) and "self.value" in t:
+                return True
+    return False
+
+
+def pack_refuses(ie: IntervalEval, pack) -> bool:
+    """every value on this path is refused by the DPTArray constructor: some octet expression lies wholly outside 0..255"""
+    if not (isinstance(pack, tuple) and pack[0] == "pack"):
+        return False
+    _, fn, args, env = pack
+    if fn != "DPTArray" or len(args) != 1:
+        return False
+    a = args[0]
+    if isinstance(a, ast.Call) and call_name(a) == "struct.pack":
+        return False
+    v = ie.ev(a, env)
+    els = [ie.ev(x, v[3]) for x in v[2]] if isinstance(v, tuple) and v[0] == "pack" and v[1] == "tuple" else [v]
+    return any(isinstance(x, Iv) and x.integral and (x.lo > 255 or x.hi < 0) for x in els)
+
+
 def run(chk: Check, repo: Repo) -> None:
     mr = engine(repo)
     classes = numeric_classes(repo)
@@ -86,6 +112,7 @@ def run(chk: Check, repo: Repo) -> None:
         tb = repo.lookup_method(c, "_test_boundaries")
         groups.setdefault(sig + (tb.qualname if tb else "",), []).append((c, m))
     chk.count("encoder signatures (body x constants)", len(groups))
+    octet_check = array_refuses_non_octets(repo)
     for sig, members in sorted(groups.items(), key=lambda kv: kv[0]):
         c, m = members[0]
         c_names = [k.name for k, _ in members]
@@ -119,7 +146,7 @@ def run(chk: Check, repo: Repo) -> None:
                 chk.ob("out-of-range-values-are-refused", m.site(), True, f"{c.name}: no value {side} the declared range exists", key=f"refuse|{c.name}|{side}")
                 continue
             outs = ie.run({param: iv})
-            acc = [o for o in outs if o.kind == "return"]
+            acc = [o for o in outs if o.kind == "return" and not (octet_check and pack_refuses(ie, o.detail))]  # a return whose octets cannot be octets is the constructor's ConversionError
             bad_exc = [o for o in outs if o.kind == "raise" and o.detail not in ("ConversionError",)]
             chk.ob("out-of-range-values-are-refused", m.site(), not acc and not bad_exc, f"{c.name}: values {side} the declared range ({iv!r}) " + ("are all refused with ConversionError" if not acc and not bad_exc else f"can be accepted (path {acc[0].conds}) — the bound is compared in different units than it is declared" if acc else f"raise {bad_exc[0].detail}"), key=f"refuse|{c.name}|{side}")
         # truncation lint
